@@ -513,6 +513,18 @@ def oracle_script(topo, sc, obs):
         return bad
     final = obs['snaps'][-1][5]
     k = 0
+    # which buses were present in changes['off'] when some act() ran (record() overwrites, it does not accumulate)
+    cur = list(sc['u0'])
+    acted = set(idx[b] for b in range(topo['n']) if not cur[b])
+    pending = None
+    for op in ops[1:]:
+        if op[0] == 's':
+            pending = set(idx[b] for b in op[1] if cur[b] == 1)
+            for b in op[1]:
+                cur[b] = 0
+        elif op[0] == 'a' and pending is not None:
+            acted |= pending
+            pending = None
     for nsrc, models in obs['groups']:
         on_bus_by_model = [set(b for d in m for b in d[2:]) for m in models]
         for mi, m in enumerate(models):
@@ -523,12 +535,14 @@ def oracle_script(topo, sc, obs):
                 if want_off and not got_off:
                     hit = [b for b in d[2:] if b in off_buses]
                     earlier_model = any(hit[0] in on_bus_by_model[j] for j in range(mi))
-                    if earlier_model:
+                    if all(h not in acted for h in hit):
+                        bad.append(('record-overwrites-off', 'device on bus %r stays on: the bus was switched off, then another '
+                                    'Bus.set was recorded before act() (ConnMan.record overwrites changes[off])' % hit[0]))
+                    elif earlier_model:
                         bad.append(('find-idx-first-model-only', 'device of the second model of a group stays on after its bus '
                                     '%r is switched off (Group.find_idx(allow_all=True) returns the first model only)' % hit[0]))
                     else:
-                        bad.append(('record-overwrites-off', 'device on bus %r stays on: the bus was switched off, then another '
-                                    'Bus.set was recorded before act() (ConnMan.record overwrites changes[off])' % hit[0]))
+                        bad.append(('bus-off-device-stays-on', 'device on bus %r stays on after the bus was switched off and act() ran' % hit[0]))
                 elif got_off and not want_off:
                     bad.append(('bus-off-extra-device', 'a device not attached to any switched-off bus was turned off'))
     # the islands reported after the scripts match the final graph
